@@ -29,7 +29,7 @@ WORKERS = {"quick": 8, "thorough": 16}
 BUDGET = {"quick": 60, "thorough": 1200}
 EXHAUSTIVE = {"quick": False, "thorough": True}
 N_FRAMES = 6
-FMTS = ["h5", "xtc", "xtc9", "trr", "dcd", "dcd0", "dcd4", "nc", "mdcrd", "mdcrd-nobox", "xyz", "xyz-foreign", "xyz.gz", "lammpstrj", "dtr", "arc"]
+FMTS = ["h5", "xtc", "xtc9", "trr", "dcd", "dcd0", "dcd4", "dcdfix", "nc", "mdcrd", "mdcrd-nobox", "xyz", "xyz-foreign", "xyz.gz", "lammpstrj", "dtr", "arc"]
 # dcd0 = DCD whose header frame count was never patched (0); dcd4 = CHARMM 4-dimensional DCD (see vlib/gen/files.py);
 # mdcrd-nobox = MDCRD without box lines (the default files carry a cell)
 # gro is not seekable (seek raises NotImplementedError) and is not in the property's list: not judged here.
@@ -132,9 +132,9 @@ def _file_for(fmt):
         if os.environ.get("VERIF_REPO"):
             path = os.path.join(os.environ["VERIF_REPO"], "tests/data/4waters.arc")
     else:
-        ext = {"xtc9": "xtc", "dcd0": "dcd", "dcd4": "dcd", "mdcrd-nobox": "mdcrd", "xyz-foreign": "xyz"}.get(fmt, fmt)
+        ext = {"xtc9": "xtc", "dcd0": "dcd", "dcd4": "dcd", "dcdfix": "dcd", "mdcrd-nobox": "mdcrd", "xyz-foreign": "xyz"}.get(fmt, fmt)
         na = 6 if fmt in ("xtc9",) else 12
-        t = files.ident_traj(N_FRAMES, na, cell=None if fmt in ("dcd4", "mdcrd-nobox") else "ortho")
+        t = files.ident_traj(N_FRAMES, na, cell=None if fmt in ("dcd4", "dcdfix", "mdcrd-nobox") else "ortho")
         path = os.path.join(_TMP, f"f_{fmt}.{ext}")
         t.save(path)
         if fmt == "xyz-foreign":
@@ -144,6 +144,9 @@ def _file_for(fmt):
         elif fmt == "dcd4":
             os.rename(path, path + ".3d")
             files.dcd_make_4d(path + ".3d", path, na, N_FRAMES)
+        elif fmt == "dcdfix":
+            os.rename(path, path + ".all")
+            files.dcd_make_fixed(path + ".all", path, na, N_FRAMES)
     with md.open(path, **files.open_kwargs(ext, na)) as fh:
         R = np.array(files.coords_of(ext, fh.read()))
     if fmt != "arc":
